@@ -33,6 +33,14 @@ def run_units(units, repo=None, nproc=None, keep_queries=False):
     results = []
     allq = []
     meta = {}
+    # every unit another unit relies on through its contract must have its frame checked
+    used = set()
+    for u in units:
+        for cu in getattr(u, "callee_units", {}).values():
+            used.add(id(cu))
+    for u in units:
+        if id(u) in used or u.modifies:
+            u.check_frame = True
     for u in units:
         r = UnitResult(u)
         results.append(r)
